@@ -48,9 +48,17 @@ pub fn core_spaces(tier: &str, seed: i64, heavy: bool) -> Vec<Space> {
         v.push(Space::all(Universe::UC { extras: 0 }));
         v.push(Space::all(Universe::UC { extras: 1 }));
         v.push(Space::all(Universe::UE { extras: 0, capturer_files: None, slider_only: false }));
-        v.push(Space::all(Universe::UE { extras: 1, capturer_files: Some(vec![1, 4, 6]), slider_only: true }));
+        if heavy {
+            v.push(Space::slice(Universe::UE { extras: 1, capturer_files: Some(vec![1, 4, 6]), slider_only: true }, 8, off));
+        } else {
+            v.push(Space::all(Universe::UE { extras: 1, capturer_files: Some(vec![1, 4, 6]), slider_only: true }));
+        }
         v.push(Space::all(Universe::UP));
-        v.push(Space::all(Universe::U4 { a: code(P, true), b: code(P, false), files: Some((3, 4)) }));
+        if heavy {
+            v.push(Space::slice(Universe::U4 { a: code(P, true), b: code(P, false), files: Some((3, 4)) }, 4, off));
+        } else {
+            v.push(Space::all(Universe::U4 { a: code(P, true), b: code(P, false), files: Some((3, 4)) }));
+        }
         v.push(Space::bfs("startpos", ROOT_START, 3));
         v.push(Space::bfs("kiwipete", ROOT_KIWI, 2));
         v.push(Space::bfs("perft3", ROOT_P3, 3));
@@ -206,6 +214,7 @@ pub fn c01_visit(ctx: &StateCtx, acc: &mut Acc) {
         }
     }
     acc.transitions += want.len() as u64;
+    acc.outcome(format!("check={} ep={} castling={} promotions={} moves{}", ctx.pos.in_check(ctx.pos.white), ctx.pos.engine_ep_file() != 8, model_legal.iter().any(|m| matches!(m.kind, MvKind::CastleShort | MvKind::CastleLong)), model_legal.iter().any(|m| m.kind == MvKind::Promotion), match want.len() { 0 => "=0", 1..=8 => "<=8", 9..=24 => "<=24", _ => ">24" }));
     if acc.states % 500_000 == 1 {
         acc.sample(ctx.describe());
     }
@@ -248,7 +257,9 @@ pub fn c02_visit(ctx: &StateCtx, acc: &mut Acc) {
             }
             if succ.rights != ctx.pos.rights {
                 acc.count("transitions losing a castling right");
+                acc.outcome(format!("rights {} -> {} by {:?}{}", ctx.pos.rights_field(), succ.rights_field(), m.kind, if m.captured != 0 { " capture" } else { "" }));
             }
+            acc.outcome(format!("{:?} capture={} ep_after={}", m.kind, m.captured != 0, succ.engine_ep_file() != 8));
             if let Err(e) = core_matches(&d, &succ) {
                 vio(acc, ctx, &format!("succ|{}", t), format!("after {} ({} game): {}", t, how, e));
                 continue;
@@ -361,6 +372,7 @@ pub fn c03_visit_depth(ctx: &StateCtx, acc: &mut Acc, nest: u32) {
             vio(acc, ctx, "c03-nested", format!("{} ({} game)", e, how));
         }
         acc.evaluations += 1;
+        acc.outcome(format!("{} game, check={}, kings can be captured={}", how, ctx.pos.in_check(ctx.pos.white), ctx.pos.pseudo_legal().iter().any(|m| m.captured != 0 && kind_of(m.captured) == K)));
     }
     if acc.states % 500_000 == 1 {
         acc.sample(ctx.describe());
@@ -374,6 +386,7 @@ pub fn c04_visit(ctx: &StateCtx, acc: &mut Acc) {
     let model_legal = ctx.pos.legal();
     for (how, mut g) in games(ctx, acc, false) {
         acc.evaluations += 1;
+        acc.outcome(format!("{} game, side={}, rights={}, ep={}", how, if ctx.pos.white { 'w' } else { 'b' }, ctx.pos.rights_field(), ctx.pos.engine_ep_file()));
         if g.hash() != want {
             vio(acc, ctx, "hash", format!("hash() = {:X} but the key file gives {:X} ({} game)", g.hash(), want, how));
             continue;
